@@ -11,7 +11,7 @@ import (
 func runC19(cfg *config) *Report {
 	rep := newReport("C19", cfg.tier, cfg.seed)
 	r := newRng(cfg.seed + 19000)
-	rep.Rule = "generated valid files in the four encodings, and for each of them every text column of every record overwritten in turn with each printable ASCII character (ASCII files) / each byte 0x40-0xFF (EBCDIC files) (quick tier: a seeded 1/40 sample of the columns, 1/4 for addendum A records); each input read by the real Reader with FRB_COMPATIBILITY_MODE unset and =true; judged when the mode-off read succeeds: the mode-on read must succeed with an equal file; non-trivial = mode-off read succeeded; distinct by input bytes"
+	rep.Rule = "generated valid files in the four encodings, and for each of them every text column of every record overwritten in turn with each printable ASCII character (ASCII files) / each byte 0x40-0xFF (EBCDIC files) (quick tier: a seeded 1/40 sample of the columns, 1/4 for addendum A records), and every fixed field of the first record of each type made all blank / all zero; each input read by the real Reader with FRB_COMPATIBILITY_MODE unset and =true; judged when the mode-off read succeeds: the mode-on read must succeed with an equal file; non-trivial = mode-off read succeeded; distinct by input bytes"
 	nFiles := 2
 	if cfg.tier == "thorough" {
 		nFiles = 5
@@ -105,6 +105,7 @@ func runC19(cfg *config) *Report {
 					p += len(l) + 1
 				}
 			}
+			seenTag := map[string]bool{}
 			for _, rc := range recs {
 				tag := out[rc[0] : rc[0]+2]
 				if e.EBCDIC {
@@ -113,6 +114,39 @@ func runC19(cfg *config) *Report {
 				L := layoutOf(tagToGo[string(tag)])
 				if L == nil {
 					continue
+				}
+				// whole-field sweep (first record of each type): every fixed field in turn all blank / all zero - the
+				// values conditional members legitimately take, and the ones a lenient path may want to fill in
+				if !seenTag[string(tag)] || cfg.tier == "thorough" {
+					seenTag[string(tag)] = true
+					fpos := 0
+					for _, w := range L.Write {
+						if w.Width == 0 {
+							break
+						}
+						lo := fpos
+						fpos += w.Width
+						if w.Conv == "lit" || rc[0]+fpos > rc[1] {
+							continue
+						}
+						for vi, fill := range []byte{' ', '0'} {
+							b := fill
+							if e.EBCDIC {
+								b = []byte{0x40, 0xF0}[vi]
+							}
+							m := append([]byte{}, out...)
+							same := true
+							for q := rc[0] + lo; q < rc[0]+fpos; q++ {
+								if m[q] != b {
+									same = false
+								}
+								m[q] = b
+							}
+							if !same {
+								cases = append(cases, kase{m, e, fmt.Sprintf("record %s field %s all %q", string(tag), w.Src, string(fill))})
+							}
+						}
+					}
 				}
 				pos := 0
 				for _, w := range L.Write {
